@@ -125,6 +125,7 @@ def generate_parser(src_root):
         if r1.returncode or r2.returncode:
             raise AnalysisBroken('bison/flex failed: ' + r1.stderr[-500:] + r2.stderr[-500:])
         open(ok, 'w').write('ok')
+        open(os.path.join(gen, '.root'), 'w').write(src_root)
     return gen
 
 
